@@ -3,7 +3,7 @@ import PdtModel.Model.Equals
 open Lean Pdt Pdt.Equals
 namespace Drv
 
-/-- scalar: {"n": tok} | {"s": str} | {"t": tok} | {"m": "none"|"nan"|"nat"|"na"} -/
+/-- scalar: {"n": tok} | {"s": str} | {"t": tok} | {"z": tok} | {"m": "none"|"nan"|"nat"|"na"} -/
 def scOfJson (j : Json) : Except String Sc :=
   match j.getObjVal? "n" with
   | .ok v => do let s ← v.getStr?; pure (.num s.toList)
@@ -13,6 +13,9 @@ def scOfJson (j : Json) : Except String Sc :=
   | .error _ =>
   match j.getObjVal? "t" with
   | .ok v => do let s ← v.getStr?; pure (.ts s.toList)
+  | .error _ =>
+  match j.getObjVal? "z" with
+  | .ok v => do let s ← v.getStr?; pure (.tsz s.toList)
   | .error _ =>
   match j.getObjVal? "m" with
   | .ok (.str "none") => pure (.miss .none)
